@@ -504,7 +504,13 @@ pub fn gen_forward_scenario(rng: &mut Rng) -> (Scenario, Vec<Acct>) {
     (Scenario { w, metas, initial, pool: vec![], cfgs, tlv }, accts)
 }
 
+static TLV_SHIFT: std::sync::atomic::AtomicUsize = std::sync::atomic::AtomicUsize::new(0);
+/// the stored TLV data and the instruction data at a varying offset from an aligned address
+fn shifted(b: &[u8]) -> emit::Shifted {
+    emit::Shifted::new(b, TLV_SHIFT.fetch_add(1, std::sync::atomic::Ordering::Relaxed))
+}
 pub fn run_offchain(sc: &Scenario, pool: &[Acct]) -> Res<Vec<AccountMeta>> {
+    let tlv = shifted(&sc.tlv);
     let mut ix = Instruction { program_id: sc.w.pid, accounts: sc.metas.clone(), data: sc.w.ix.clone() };
     let r = catch(|| {
         futures::executor::block_on(ExtraAccountMetaList::add_to_instruction::<MT0, _, _>(
@@ -516,7 +522,7 @@ pub fn run_offchain(sc: &Scenario, pool: &[Acct]) -> Res<Vec<AccountMeta>> {
                 };
                 async move { r }
             },
-            &sc.tlv,
+            tlv.bytes(),
         ))
     });
     r.map(|_| ix.accounts.clone())
@@ -528,14 +534,16 @@ pub fn run_cpi(sc: &Scenario, pool: &[Acct]) -> Res<(Vec<AccountMeta>, Vec<Pubke
     let pool_infos: Vec<AccountInfo> = store.iter_mut().map(|(k, l, d, s, w)| AccountInfo::new(k, *s, *w, l, &mut d[..], &owner, false)).collect();
     let mut cpi_infos: Vec<AccountInfo> = istore.iter_mut().map(|(k, l, d, s, w)| AccountInfo::new(k, *s, *w, l, &mut d[..], &owner, false)).collect();
     let mut ix = Instruction { program_id: sc.w.pid, accounts: sc.metas.clone(), data: sc.w.ix.clone() };
-    let r = catch(|| ExtraAccountMetaList::add_to_cpi_instruction::<MT0>(&mut ix, &mut cpi_infos, &sc.tlv, &pool_infos));
+    let tlv = shifted(&sc.tlv);
+    let r = catch(|| ExtraAccountMetaList::add_to_cpi_instruction::<MT0>(&mut ix, &mut cpi_infos, tlv.bytes(), &pool_infos));
     r.map(|_| (ix.accounts.clone(), cpi_infos.iter().map(|i| *i.key).collect()))
 }
 pub fn run_check(accounts: &[Acct], ix: &[u8], pid: &Pubkey, tlv: &[u8]) -> Res<()> {
     let owner = Pubkey::new_from_array([9u8; 32]);
     let mut store: Vec<(Pubkey, u64, Vec<u8>, bool, bool)> = accounts.iter().map(|a| (a.key, 1u64, a.data.clone(), a.signer, a.writable)).collect();
     let infos: Vec<AccountInfo> = store.iter_mut().map(|(k, l, d, s, w)| AccountInfo::new(k, *s, *w, l, &mut d[..], &owner, false)).collect();
-    catch(|| ExtraAccountMetaList::check_account_infos::<MT0>(&infos, ix, pid, tlv))
+    let (tlv, ix) = (shifted(tlv), shifted(ix));
+    catch(|| ExtraAccountMetaList::check_account_infos::<MT0>(&infos, ix.bytes(), pid, tlv.bytes()))
 }
 
 fn e_metas(ms: &[AccountMeta]) -> String {
